@@ -10,6 +10,9 @@
          9 p g  Protect         10 p g  Unprotect
         11 dt   clock advance by dt units (decayer ticks happen inside)
         12      TrimOpenConns   13      ForceTrim
+        16 d    decayingTag.Close returned but the loop has not processed the closure yet
+                (the loop is held on a segment lock by the harness); 8 d then is the processing
+        14 d acc  RegisterDecayingTag with the name and parameters of tag d; acc = 1 accepted
    obs (after every op):
         connCount  NP x (present value tagsum)  k  k x (p c)
      present/value = GetTagInfo(p) != nil / .Value, tagsum = sum of .Tags,
@@ -141,12 +144,13 @@ Definition astep (cfg : config) (s : astate) (o : op) : astate :=
         aset s p (mkAP true (a_first a) (a_tags a) (upd 0 (a_dec a) d 0) (a_conns a))
       else s
   | DClose d =>
-      if Nat.ltb d (length (c_dtags cfg)) && negb (snd (get (0, true) (a_dst s) d)) then
+      if (Nat.ltb d (length (c_dtags cfg)) && negb (snd (get (0, true) (a_dst s) d)))
+         || (Nat.ltb d (length (c_dtags cfg)) && snd (get (0, true) (a_dst s) d) && (fst (get (0, true) (a_dst s) d) =? -1)) then
         mkAS (map (fun a => if a_known a
                             then mkAP true (a_first a) (a_tags a) (upd 0 (a_dec a) d 0) (a_conns a)
                             else a) (a_peers s))
              (a_prot s) (a_now s)
-             (upd (0, true) (a_dst s) d (fst (get (0, true) (a_dst s) d), true))
+             (upd (0, true) (a_dst s) d (0, true))
       else s
   | Protect p g =>
       let tags := get [] (a_prot s) p in
@@ -156,6 +160,19 @@ Definition astep (cfg : config) (s : astate) (o : op) : astate :=
   | Advance dt => aadvance cfg s dt
   | Trim => s
   | ForceTrim => s
+  | DCloseQ d =>
+      (* Close() took effect for the caller: no further bumps; the values go
+         when the loop processes the closure (DClose) *)
+      if Nat.ltb d (length (c_dtags cfg)) && negb (snd (get (0, true) (a_dst s) d))
+      then mkAS (a_peers s) (a_prot s) (a_now s) (upd (0, true) (a_dst s) d (-1, true)) else s
+  | DRegister d acc =>
+      (* a registration the caller was told succeeded creates a live tag that
+         decays at its intervals, counted from the decayer's last tick *)
+      if acc && Nat.ltb d (length (c_dtags cfg))
+      then mkAS (a_peers s) (a_prot s) (a_now s)
+                (upd (0, true) (a_dst s) d
+                     ((a_now s / c_res cfg) * c_res cfg + eff_interval cfg (get nodtag (c_dtags cfg) d), false))
+      else s
   end.
 
 (* ---- the trim clauses of the property ------------------------------------------ *)
@@ -382,6 +399,7 @@ Fixpoint conf_prefix (cfg : config) (np : nat) (s : state) (i : Z) (tr : list (o
         match o with
         | Trim => trim_ok cfg (abs s) (o_closed x) && trim_tight cfg (abs s) (o_closed x)
         | ForceTrim => force_prop cfg (abs s) (o_closed x) && force_tight cfg (abs s) (o_closed x)
+        | DRegister d acc => is_nil (o_closed x) && Bool.eqb acc (dreg_allowed cfg s d)
         | _ => is_nil (o_closed x)
         end in
       if negb closed_ok then inr [ERR_MISMATCH; i; 1; zlen (o_closed x); zlen cl]
@@ -555,6 +573,8 @@ Definition decode_op (l : list Z) : option (op * list Z) :=
   | 11 :: dt :: r => if (dt <? 0) || (100000 <? dt) then None else Some (Advance (znat dt), r)
   | 12 :: r => Some (Trim, r)
   | 13 :: r => Some (ForceTrim, r)
+  | 14 :: d :: acc :: r => Some (DRegister (znat d) (zbool acc), r)
+  | 16 :: d :: r => Some (DCloseQ (znat d), r)
   | _ => None
   end.
 
